@@ -31,6 +31,9 @@ def sh(cmd, cwd, timeout=1500):
 
 def main():
     sd = os.path.abspath(sys.argv[1])
+    base = "HEAD"
+    if "--base" in sys.argv:
+        base = sys.argv[sys.argv.index("--base") + 1]
     demo = os.path.join(sd, "demo_test.go")
     if not os.path.exists(demo):
         print("NO-DEMO", sd); return 2
@@ -48,20 +51,24 @@ def main():
     if pkg is None:
         print("NO-PKG", sd); return 2
     pkg = pkg.rstrip("/") or "."
+    if pkg == ".":
+        mm = re.search(r"cd\s+(\S+)\s*&&\s*go test", src)
+        if mm and not mm.group(1).startswith("/"):
+            pkg = "./" + mm.group(1).strip("/")
     tests = re.findall(r"^func (Test\w+|Example\w*)\(", src, re.M)
     runpat = "^(" + "|".join(tests) + ")$" if tests else "."
     patch = os.path.join(sd, "patch.rebased.diff")
-    if not os.path.exists(patch):
+    if not os.path.exists(patch) or base != "HEAD":
         patch = os.path.join(sd, "patch.diff")
     wt = tempfile.mkdtemp(prefix="confirm-", dir="/tmp")
     os.rmdir(wt)
     # demos in schema/gen/go build into $TMPDIR/test-go-ipld-prime-gengo: keep concurrent runs apart
     ENV["TMPDIR"] = tempfile.mkdtemp(prefix="confirm-tmp-", dir="/tmp")
-    res = {"at_repo_commit": subprocess.check_output(["git", "-C", "/repo", "rev-parse", "--short", "HEAD"], text=True).strip(),
+    res = {"at_repo_commit": subprocess.check_output(["git", "-C", "/repo", "rev-parse", "--short", base], text=True).strip(),
            "patch_used": os.path.basename(patch), "demo_pkg": pkg, "demo_run": runpat}
     ok = False
     try:
-        rc, out = sh(["git", "-C", "/repo", "worktree", "add", "--detach", wt, "HEAD"], "/")
+        rc, out = sh(["git", "-C", "/repo", "worktree", "add", "--detach", wt, base], "/")
         if rc != 0:
             print("WORKTREE-FAILED", out); return 2
         dst = os.path.join(wt, pkg, "zz_seed_demo_test.go")
@@ -97,7 +104,11 @@ def main():
         sh(["git", "-C", "/repo", "worktree", "prune"], "/")
     mp = os.path.join(sd, "meta.json")
     meta = json.load(open(mp)) if os.path.exists(mp) else {}
-    meta["self_confirmed"] = res
+    if base != "HEAD":
+        res["note"] = "confirmed against the pinned tree the seed was written for: its demonstration depends on behaviour that a later fix commit changed, so on the repaired tree the demonstration fails even without the patch (the check's verdict on the rebased patch is in check_result)"
+        meta["self_confirmed_on_pinned_tree"] = res
+    else:
+        meta["self_confirmed"] = res
     json.dump(meta, open(mp, "w"), indent=1)
     print(("CONFIRMED " if ok else "NOT-CONFIRMED ") + os.path.basename(sd), json.dumps({k: v for k, v in res.items() if k != "demo_with_patch_tail"}))
     return 0 if ok else 1
